@@ -6,7 +6,7 @@ import core
 
 ID = "C19"
 LEAN_MODULES = ["CatiiProps.C19"]
-USES_TRANSLATOR = True
+USES_TRANSLATOR = ['fit_dtype']
 RULE = ("grid = {±2^k, ±2^k±1 : k in 0..64} ∪ every integer constant in fit_dtype's source (±1), both arguments "
         "crossed; a point is non-trivial when it lies in the property's domain (-2^63 <= min <= 0, min <= max < 2^64, "
         "negative min => max < 2^63); distinct = distinct (max, min) pairs; plus the three call sites named by the property: "
